@@ -28,6 +28,14 @@ import (
 	"github.com/kubewharf/kubegateway/pkg/gateway/endpoints/request"
 )
 
+// cacheKey identifies a token cache. A host name can move from one cluster to another while both
+// are alive (server names are mutable), so the cluster the host resolved to is part of the key: an
+// answer given by one cluster is never served to a request that resolves to another one.
+type cacheKey struct {
+	host    string
+	cluster *clusters.ClusterInfo
+}
+
 type multiClusterTokenReviewAuthenticator struct {
 	tokenSuccessCacheTTL time.Duration
 	tokenFailureCacheTTL time.Duration
@@ -62,19 +70,20 @@ func (a *multiClusterTokenReviewAuthenticator) AuthenticateToken(ctx context.Con
 	var tokenAuth authenticator.Token
 	if a.tokenFailureCacheTTL == 0 && a.tokenSuccessCacheTTL == 0 {
 		// if token cache ttl is 0, call upstream cluster directly
-		tokenAuth = a.authenticateTokenForHost(host)
+		tokenAuth = a.authenticateTokenForHost(host, cluster)
 	} else {
-		// split cache by host
-		cache, loaded := a.caches.Load(host)
+		// split cache by host and by the cluster the host currently belongs to
+		key := cacheKey{host: host, cluster: cluster}
+		cache, loaded := a.caches.Load(key)
 		if !loaded {
 			// use token cache, if no cache is hit, authenticateToken() will be called
 			// tokencache use a new context inheriting from context.Background() without all value of req.Context.
-			cache, loaded = a.caches.LoadOrStore(host, tokencache.New(a.authenticateTokenForHost(host), false, a.tokenSuccessCacheTTL, a.tokenFailureCacheTTL))
+			cache, loaded = a.caches.LoadOrStore(key, tokencache.New(a.authenticateTokenForHost(host, cluster), false, a.tokenSuccessCacheTTL, a.tokenFailureCacheTTL))
 			// destry cache when cluster stopped
 			if !loaded {
 				go func() {
 					<-cluster.Context().Done()
-					a.caches.Delete(host)
+					a.caches.Delete(key)
 				}()
 			}
 		}
@@ -83,12 +92,16 @@ func (a *multiClusterTokenReviewAuthenticator) AuthenticateToken(ctx context.Con
 	return tokenAuth.AuthenticateToken(ctx, token)
 }
 
-// authenticate token by webhook.
-func (a *multiClusterTokenReviewAuthenticator) authenticateTokenForHost(host string) authenticator.TokenFunc {
+// authenticate token by webhook. The review must be answered by the cluster the request was resolved to;
+// if the host has moved to another cluster in the meantime the answer would end up in the wrong cache.
+func (a *multiClusterTokenReviewAuthenticator) authenticateTokenForHost(host string, cluster *clusters.ClusterInfo) authenticator.TokenFunc {
 	return authenticator.TokenFunc(func(ctx context.Context, token string) (*authenticator.Response, bool, error) {
-		_, client, err := a.clientProvider.ClientFor(host)
+		current, client, err := a.clientProvider.ClientFor(host)
 		if err != nil {
 			return nil, false, err
+		}
+		if current != cluster {
+			return nil, false, fmt.Errorf("host %q no longer belongs to cluster %q", host, cluster.Cluster)
 		}
 		// err is always nil, can be ignored
 		tokenauth, _ := webhooktoken.NewFromInterface(client.AuthenticationV1().TokenReviews(), a.implicitAuds)
